@@ -3,6 +3,11 @@ from checks import mutex_common
 
 
 def run(chk):
+    # "Requests presenting the same session ID are thereby serialised through
+    # Start's lookup-validate-rotate step": the use of the lock manager in
+    # session.go is pinned (Gen/SessShape.v, regenerated from the source)
+    from checks import hist_common
+    hist_common.idlock_obligation(chk, "C13")
     return mutex_common.run_property(chk, "C13", want=["mutual exclusion"], other=["deadlock", "lost wake-up"])
 
 
